@@ -75,6 +75,9 @@ func (r rngReader) Read(p []byte) (int, error) {
 
 type SrvParams struct {
 	NoAdmin bool // the configuration names no AdminUID
+	// RedirNoPort: RedirAddr names a host only; the redirect target's port is then
+	// the port the peer connected to
+	RedirNoPort bool
 	// ProxyBook: method name -> [network, address]
 	ProxyBook map[string][]string
 	NBypass   int
@@ -122,6 +125,9 @@ func NewSrvWorld(c *Ctx, p SrvParams) *SrvWorld {
 	if p.NoAdmin {
 		// a server set up without an administrator (and hence without a database)
 		raw.AdminUID = nil
+	}
+	if p.RedirNoPort {
+		raw.RedirAddr, _, _ = net.SplitHostPort(redirAddr)
 	}
 	if p.WithDB {
 		w.DBDir = scratchDir()
@@ -177,6 +183,9 @@ func NewSrvWorld(c *Ctx, p SrvParams) *SrvWorld {
 		}
 		w.RealMain = true
 		for name, e := range p.ProxyBook {
+			if e[0] != "tcp" && e[0] != "udp" {
+				continue
+			}
 			w.Upstream[name] = c.Net.ListenNet(e[0], e[1])
 		}
 		w.Redir = c.Net.Listen(redirAddr)
@@ -194,6 +203,9 @@ func NewSrvWorld(c *Ctx, p SrvParams) *SrvWorld {
 	w.Mgr = sta.Panel.Manager
 	w.Front = c.Net.Listen(srvAddr)
 	for name, e := range p.ProxyBook {
+		if e[0] != "tcp" && e[0] != "udp" {
+			continue // an entry the server cannot serve (it ignores it)
+		}
 		w.Upstream[name] = c.Net.ListenNet(e[0], e[1])
 	}
 	w.Redir = c.Net.Listen(redirAddr)
